@@ -780,6 +780,10 @@ def run(ctx, rec):
                     with_thresholds(30, lambda: run_chain(rec, rng, kind, op, n, heavy=True))
                 else:
                     run_chain(rec, rng, kind, op, n, heavy=True)
+    # the two listed findings (known_findings.json) are exercised on every run and seed, whatever the rotation above picked
+    for oi, op in enumerate(("*", "/")):
+        if ctx.mine(7 + 5 * oi) and not rec.out_of_time():
+            run_chain(rec, rng, "var", op, 900 if op == "*" else 450, heavy=True)  # products recurse from ~500 terms on, quotients from ~330
     # every unary function applied to a whole deep accumulation: f(t_1 + ... + t_n)
     for fi, f in enumerate(R.FUNCS):
         for ni, n in enumerate((450, 900)):
